@@ -26,7 +26,9 @@ func NewKeyBackuper(privateFolder, publicFolder string, storage api.BackupKeysto
 // Export keys from KeyStore encrypted with new key for backup
 func (store *KeyBackuper) Export(exportIDs []keystoreV1.ExportID, mode keystoreV1.ExportMode) (*keystoreV1.KeysBackup, error) {
 	var exportPaths []string
-	if mode == keystoreV1.ExportAllKeys {
+	// all key rings are exported when that is asked for by the mode or when no keys are named
+	// (`acra-keys export --all --private_keys` comes with ExportPrivateKeys and no ids)
+	if mode == keystoreV1.ExportAllKeys || len(exportIDs) == 0 {
 		var err error
 		exportPaths, err = store.storage.ListKeyRings()
 		if err != nil {
